@@ -443,9 +443,18 @@ clientReplyContext::handleIMSReply(const StoreIOBuffer result)
 
     // origin replied 304
     if (status == Http::scNotModified) {
+        // RFC 9111 section 4.3.4: a 304 carrying an entity tag that our stored
+        // response does not have was selected by another validator in the
+        // request (e.g., the client's own If-None-Match that we forwarded) and
+        // says nothing about the stored response.
+        const auto newTag = new_rep.header.getETag(Http::HdrType::ETAG);
+        const auto oldTag = old_entry->mem().freshestReply().header.getETag(Http::HdrType::ETAG);
+        const auto validatesAnotherResponse = newTag.str && oldTag.str &&
+                                              !etagIsWeakEqual(newTag, oldTag);
+
         // TODO: The update may not be instantaneous. Should we wait for its
         // completion to avoid spawning too much client-disassociated work?
-        if (!Store::Root().updateOnNotModified(old_entry, *http->storeEntry())) {
+        if (validatesAnotherResponse || !Store::Root().updateOnNotModified(old_entry, *http->storeEntry())) {
             old_entry->release(true);
             restoreState();
             http->updateLoggingTags(LOG_TCP_MISS);
